@@ -10,7 +10,7 @@ import secsgem.gem
 
 T3 = 45.0
 T6 = 5.0
-DELAY = 10.0
+DELAY = 10
 
 
 def body_s1f13(from_host):
@@ -95,9 +95,12 @@ class GemEndpoint(hh.Endpoint):
         """Acknowledge equipment-initiated primaries (S5F1, S6F11, S1F1) the way a host would, so callers do not run into T3."""
         n = 0
         for f in frames:
-            if f["stype"] != 0 or not f["w"]:
+            if f["stype"] != 0:
                 continue
             sf = (f["stream"], f["function"])
+            # S5F1 is sent without W-bit by the library, which nevertheless waits T3 for S5F2: a friendly host answers anyway
+            if not f["w"] and sf != (5, 1):
+                continue
             if sf == (6, 11):
                 self.conn.peer_send(e37.data(6, 12, False, f["system"], e5.enc(("B", b"\x00"))))
                 n += 1
